@@ -136,6 +136,20 @@ def _case(draw, tier):
                 hist.append(q)
         hist.append(['redefine', 'Hot', 'v1', True])
         return {'history': hist, 'final': q, 'late_defined': False, 'chain': True}
+    if draw(st.integers(0, 7)) == 0:
+        # rebinding chain: a forward-referenced name is unbound / bound to a non-hint placeholder / bound to its class, in a drawn
+        # order, while one and the same wrapper (and the door) is asked in between; the last binding decides the reference answer
+        w = draw(st.sampled_from(['bare', 'list', 'opt', 'dict', 'tuple']))
+        leaf = ['fwd', 'Late']
+        hint = {'bare': leaf, 'list': ['list', leaf], 'opt': ['opt', leaf], 'dict': ['dict', leaf], 'tuple': ['tuple', leaf]}[w]
+        val = draw(st.sampled_from([['inst', 'Late', 'v1'], ['inst', 'Late', 'v1'], ['i', 1]]))
+        value = {'list': ['list', [val]], 'dict': ['dictv', val], 'tuple': ['tuple', [val]]}.get(w, val)
+        q = [draw(st.sampled_from(['call', 'call', 'is_bearable', 'die'])), hint, value]
+        hist = []
+        for b in draw(st.lists(st.sampled_from(['define_late_bad', 'define_late', 'ask', 'ask']), min_size=2, max_size=6)):
+            hist.append(q if b == 'ask' else [b])
+        hist.append([draw(st.sampled_from(['define_late', 'define_late', 'define_late_bad']))])
+        return {'history': hist, 'final': q, 'late_defined': False}
     final = draw(st.one_of(queries(d), focused_query(), focused_query()))
     # never an empty history (the reference run is the empty one); lengths spread evenly instead of Hypothesis' small-size bias
     n = draw(st.sampled_from([1, 2, 3, 4, 6, 8, 10, 12] + ([16, 20, 25] if tier != 'quick' else [])))
@@ -149,7 +163,9 @@ def _case(draw, tier):
         elif k == 6:
             hist.append(['gc'])
         elif k == 7:
-            hist.append(['define_late'])
+            # the forward-referenced name is bound to its class, or first to an object that is no hint at all (a placeholder
+            # constant) - a later rebinding to the class must then be honoured by wrappers that already failed once
+            hist.append([draw(st.sampled_from(['define_late', 'define_late', 'define_late_bad']))])
         elif k == 8:
             hist.append(['redefine', draw(st.sampled_from(['Dyn', 'Other'])), draw(st.sampled_from(['v1', 'v2', 'v3'])), draw(st.booleans())])
         else:
@@ -270,6 +286,9 @@ class World:
                 if k == 'define_late':
                     self.mod.Late = self.cls('Late', 'v1')
                     return ['done']
+                if k == 'define_late_bad':
+                    self.mod.Late = 0xC14
+                    return ['done']
                 if k == 'redefine':
                     self.classes.pop((op[1], op[2]), None)
                     self.cls(op[1], op[2], decorated=op[3])
@@ -343,7 +362,8 @@ def _dyn_variants(op):
 
 def run_case(case):
     final = case['final']
-    late_in_hist = any(op[0] == 'define_late' for op in case['history'])
+    late_ops = [op for op in case['history'] if op[0] in ('define_late', 'define_late_bad')]
+    late_in_hist = bool(late_ops)
     a = isolate.call(_child, dict(case, define_before_final=False), timeout=60)
     if isinstance(a, dict) and a.get('timeout'):
         return {'fails': [{'sig': 'timeout', 'detail': repr(case)}], 'nontrivial': True}
@@ -351,7 +371,7 @@ def run_case(case):
     if not case['history']:
         b = a
     else:
-        ref_hist = [['define_late']] if late_in_hist else []
+        ref_hist = [late_ops[-1]] if late_in_hist else []     # the binding in force when the final query is asked
         if case.get('chain'):
             ref_hist = [['redefine', 'Hot', 'v1', True]]
         b = isolate.call(_child, {'history': ref_hist, 'final': final}, timeout=60)
